@@ -135,6 +135,8 @@ def run_schedule(sched, tc, insts, ann0=(), rand=None, t_extra=None, send_failur
             st.call(ev, st.prot.connection_lost, None)
         elif op in ("arm_withdraw", "arm_raise"):
             pass
+        elif op == "defer":       # the application queues the call with call_soon: it runs among the library's callbacks of the next iteration
+            st.call(ev, st.loop.call_soon, do, inp["e"])
         elif op == "queue":
             st.call(ev, ann.queue_send, sdenv.conc_entry(inp["en"]),
                     remote=None if inp["dst"] == "mc" else sdenv.ADDR[inp["dst"]])
